@@ -62,6 +62,42 @@ pub const R_CERR: u8 = 1;
 pub const R_SERR: u8 = 2;
 pub const R_PANIC: u8 = 3;
 
+// ---- counting allocator: peak live heap during one case ----
+use std::alloc::{GlobalAlloc, Layout, System};
+use std::sync::atomic::{AtomicUsize, AtomicU64, Ordering};
+pub struct Counting;
+static CUR: AtomicUsize = AtomicUsize::new(0);
+static PEAK: AtomicUsize = AtomicUsize::new(0);
+unsafe impl GlobalAlloc for Counting {
+    unsafe fn alloc(&self, l: Layout) -> *mut u8 {
+        let p = System.alloc(l);
+        if !p.is_null() { let c = CUR.fetch_add(l.size(), Ordering::Relaxed) + l.size(); PEAK.fetch_max(c, Ordering::Relaxed); }
+        p
+    }
+    unsafe fn dealloc(&self, p: *mut u8, l: Layout) { System.dealloc(p, l); CUR.fetch_sub(l.size(), Ordering::Relaxed); }
+    unsafe fn realloc(&self, p: *mut u8, l: Layout, new: usize) -> *mut u8 {
+        let q = System.realloc(p, l, new);
+        if !q.is_null() {
+            if new >= l.size() { let c = CUR.fetch_add(new - l.size(), Ordering::Relaxed) + (new - l.size()); PEAK.fetch_max(c, Ordering::Relaxed); }
+            else { CUR.fetch_sub(l.size() - new, Ordering::Relaxed); }
+        }
+        q
+    }
+}
+/// run `f`; returns its result and the peak growth of the live heap while it ran
+pub fn alloc_scope<T>(f: impl FnOnce() -> T) -> (T, usize) {
+    let base = CUR.load(Ordering::Relaxed);
+    PEAK.store(base, Ordering::Relaxed);
+    let r = f();
+    let peak = PEAK.load(Ordering::Relaxed);
+    (r, peak.saturating_sub(base))
+}
+
+// ---- hang watchdog and abort trace ----
+/// milliseconds (since process start) at which the running case started; 0 = idle
+pub static CASE_START: AtomicU64 = AtomicU64::new(0);
+pub fn now_ms() -> u64 { use std::time::Instant; static T0: std::sync::OnceLock<Instant> = std::sync::OnceLock::new(); T0.get_or_init(Instant::now).elapsed().as_millis() as u64 + 1 }
+
 /// Run `f`, mapping a panic to None.
 pub fn catch<T>(f: impl FnOnce() -> T) -> Option<T> {
     catch_unwind(AssertUnwindSafe(f)).ok()
@@ -82,6 +118,7 @@ pub struct Emitter {
     only: Option<String>,
     limit: Option<u64>,
     per_sid: std::collections::HashMap<u32, u64>,
+    trace: Option<std::fs::File>,
 }
 
 impl Emitter {
@@ -92,6 +129,7 @@ impl Emitter {
             only: std::env::var("VERIF_ONLY").ok(),
             limit: std::env::var("VERIF_LIMIT").ok().and_then(|v| v.parse().ok()),
             per_sid: std::collections::HashMap::new(),
+            trace: std::env::var("VERIF_TRACE").ok().and_then(|p| std::fs::OpenOptions::new().create(true).write(true).open(p).ok()),
         }
     }
 
@@ -117,7 +155,15 @@ impl Emitter {
             if *c >= limit { return }
             *c += 1;
         }
+        if let Some(f) = self.trace.as_ref() {
+            // the case about to run, so that an abort or hang can be attributed
+            use std::os::unix::fs::FileExt;
+            let rec = format!("{:010}\n{}\n", key.len(), key);
+            let _ = f.write_all_at(rec.as_bytes(), 0);
+        }
+        CASE_START.store(now_ms(), Ordering::Relaxed);
         let (obs, oracle, nt) = run();
+        CASE_START.store(0, Ordering::Relaxed);
         let orc = match oracle {
             Oracle::None => "-".to_string(),
             Oracle::Pass => "1".to_string(),
